@@ -159,6 +159,21 @@ fn run_config(cfg: &Config, db: &[TableDef], sql: &str, others: &[String], run: 
     }
 }
 
+/// the physical plan a configuration produces for the query (text), for classifying a deviation
+fn physical_plan_text(cfg: &Config, db: &[TableDef], sql: &str, run: &mut Run) -> String {
+    let ctx = make_ctx(cfg, db, run);
+    let rt = tokio::runtime::Builder::new_current_thread().enable_all().build().unwrap();
+    rt.block_on(async {
+        match ctx.sql(sql).await {
+            Ok(df) => match df.create_physical_plan().await {
+                Ok(p) => datafusion::physical_plan::displayable(p.as_ref()).indent(false).to_string(),
+                Err(e) => format!("ERR {e}"),
+            },
+            Err(e) => format!("ERR {e}"),
+        }
+    })
+}
+
 fn counts(rows: &[Vec<Val>]) -> BTreeMap<Vec<Val>, usize> {
     let mut m = BTreeMap::new();
     for r in rows {
@@ -257,8 +272,8 @@ pub fn run(run: &mut Run, args: &Args) {
     let mut rng = Rng::new(args.seed);
     hutil::quiet_panics();
     two_stage_cases(run, &mut rng);
-    let n_queries = run.budget(40, 600);
-    let n_cfg = run.budget(7, 24);
+    let n_queries = run.budget(60, 400);
+    let n_cfg = run.budget(8, 20);
     let mut qi = 0u64;
     let mut attempts = 0u64;
     while qi < n_queries && attempts < n_queries * 5 {
@@ -324,6 +339,7 @@ pub fn run(run: &mut Run, args: &Args) {
         }
         let mut deviating: Vec<Result<Rows, String>> = vec![];
         for (c, runs) in &cfgs {
+            let mut plan_text: Option<String> = None;
             for (k, r) in runs.iter().enumerate() {
                 if let Err(m) = r {
                     if m.starts_with("HANG") || m.starts_with("PANIC") {
@@ -332,8 +348,21 @@ pub fn run(run: &mut Run, args: &Args) {
                     }
                 }
                 let v = same(&q, seq, &base, r);
-                run.oracle(v.is_ok(), &format!("C02 result-depends-on-configuration :: {sql} :: {} :: run#{k}", cfg_text(c)), &format!("{}; baseline target_partitions=1; db={dbs}", v.clone().err().unwrap_or_default()));
-                if v.is_err() && deviating.len() < 3 {
+                let mut sig = format!("C02 result-depends-on-configuration :: {sql} :: {} :: run#{k}", cfg_text(c));
+                if v.is_err() {
+                    // J1: a sort-merge join whose residual filter is the constant NULL
+                    let pt = plan_text.get_or_insert_with(|| physical_plan_text(c, &db, &sql, run));
+                    if pt.contains("SortMergeJoinExec") && pt.contains("filter=NULL") {
+                        sig = format!("C02 J1 sort-merge-join-with-constant-null-filter :: {sql} :: {} :: run#{k}", cfg_text(c));
+                        run.count("finding:J1");
+                    } else if pt.contains("SortMergeJoinExec") && matches!(r, Err(m) if m.contains("panicked") && m.contains("index out of bounds")) {
+                        // J2: sort_merge_join/filter.rs get_filter_columns indexes past the batch
+                        sig = format!("C02 J2 sort-merge-join-filter-panic-index-out-of-bounds :: {sql} :: {} :: run#{k}", cfg_text(c));
+                        run.count("finding:J2");
+                    }
+                }
+                run.oracle(v.is_ok(), &sig, &format!("{}; baseline target_partitions=1; db={dbs}", v.clone().err().unwrap_or_default()));
+                if v.is_err() && deviating.len() < 3 && !sig.starts_with("C02 J1") && !sig.starts_with("C02 J2") {
                     deviating.push(r.clone());
                 }
             }
@@ -346,9 +375,15 @@ pub fn run(run: &mut Run, args: &Args) {
             Err(m) => format!("(err {})", err_class(m)),
         };
         let nontrivial = structural && matches!(&base, Ok(r) if !r.is_empty());
-        run.case("query", &format!("({mode} {plan} {dbs} {})", impl_sexp(&base)), "ok", nontrivial);
+        // (a query the engine fails under EVERY configuration is consistent as far as this property
+        //  goes; whether the failure is right is C01's question)
+        if base.is_ok() {
+            run.case("common", &format!("({mode} {plan} {dbs} {})", impl_sexp(&base)), "ok", nontrivial);
+        } else {
+            run.count("engine-fails-under-every-configuration");
+        }
         for d in &deviating {
-            run.case("query", &format!("({mode} {plan} {dbs} {})", impl_sexp(d)), "ok", false);
+            run.case("deviating", &format!("({mode} {plan} {dbs} {})", impl_sexp(d)), "ok", false);
         }
         if qi <= 3 {
             run.note(&format!("sample SQL: {sql}"));
